@@ -210,7 +210,9 @@ class _ReadSourceGenerator:
                     bits_remaining -= field.bits
 
                 yield from flush()
-                yield from align_to_field(field)
+                if bits_rollover or field.offset is not None:
+                    # Only the bit field that opens a storage unit is aligned, the others are read from that unit
+                    yield from align_to_field(field)
                 yield from self._generate_bits(field)
 
             # Everything else - basic and composite types (and arrays of them)
